@@ -135,6 +135,7 @@ def run(ctx):
     for v in sorted(outs, key=repr):
         _, name, bodies, st, res = v
         ok = compare(ctx, name, bodies, st, res)
+        ctx.again(compare, ctx, name, bodies, st, res)
         kinds.add(name)
         ctx.replayed += 1
         ctx.count((name, bodies, st), nontrivial=True)
@@ -143,6 +144,7 @@ def run(ctx):
     if len(kinds) < len({m_[0] for m_ in ms}):
         raise Exception('vacuity: too few macro kinds exported')
     ctx.extra['macro_names'] = len(kinds)
+    ctx.second_pass()
     ctx.exhaustive = True
 
 
